@@ -49,6 +49,7 @@ PROFILE = gen.profile(
 ASYNCIO_PROFILE = gen.profile(
     p_shared=0.0,
     p_result=0.0,
+    p_future_result=0.0,
     p_same_object=0.0,  # a coroutine object cannot be awaited twice: re-yielding is not part of what .asyncio() promises
     p_item_fault=0.0,
     p_wrap=0.0,
